@@ -10,6 +10,7 @@ import (
 	"verif/harness/suites/dwt"
 	"verif/harness/suites/framing"
 	"verif/harness/suites/ht"
+	"verif/harness/suites/htsafe"
 	"verif/harness/suites/j2kblocks"
 	"verif/harness/suites/j2ke2e"
 	"verif/harness/suites/jpegent"
@@ -49,5 +50,6 @@ func main() {
 	pipeht.Register(s)     // C06 (HT block coder composed into the pipeline)
 	jpegent.Register(s)    // C11 C08 C09 C15 (baseline / extended entropy layer)
 	t1safe.Register(s)     // C08 C09 (T1 block decoder on arbitrary input)
+	htsafe.Register(s)     // C08 C09 (HT cleanup block decoder on arbitrary input)
 	vhlib.Main(s)
 }
